@@ -81,7 +81,7 @@ class Workspace(object):
         cxx = path.endswith(".cpp") or path.endswith(".cc")
         cc = ["clang++-14", "-std=gnu++11"] if cxx else ["clang-14", "-std=gnu90"]
         cmd = cc + ["-I" + self.dir, "-I" + self.src] + list(defs) + list(extra) + [
-            "-O0", "-Xclang", "-disable-O0-optnone", "-fno-discard-value-names", "-g", "-w",
+            "-O0", "-Xclang", "-disable-O0-optnone", "-fno-discard-value-names", "-g", "-fstandalone-debug", "-w",
             "-S", "-emit-llvm", path, "-o", out + ".raw.ll"]
         _run(cmd)
         if mem2reg:
@@ -126,5 +126,5 @@ class Workspace(object):
         js = os.path.join(self.dir, name + ".json")
         _run([IRFACTS, js] + outs)
         m = Model(js, name=name)
-        m.units = list(files)
+        m.units = [os.path.relpath(x, VERIF) for x in files]
         return m
